@@ -45,8 +45,10 @@ def series_event(pp, tid, A, mono, rnd):
 
     def f():
         M = pp.mass(text, charge=0, ion_type="p", monoisotopic=mono)
-        tf = pp.fragment(text, TERMINAL, [1, 2, 3, 4], monoisotopic=mono)
-        im = pp.fragment(text, "i", [1, 2], monoisotopic=mono)
+        # the charge list in an order that depends on the peptide (each charge state is computed on its own)
+        zs = [[1, 2, 3, 4], [4, 3, 2, 1], [2, 4, 1, 3], [3, 1, 4, 2]][len(text) % 4]
+        tf = pp.fragment(text, TERMINAL, zs, monoisotopic=mono)
+        im = pp.fragment(text, "i", [2, 1] if len(text) % 2 else [1, 2], monoisotopic=mono)
         it = pp.fragment(text, INTERNAL, [1], monoisotopic=mono) if n >= 3 else []
         return M, tf, im, it
     o, r = call(f)
